@@ -10,7 +10,7 @@ CHECKS = {
         "state graph of QHash is replayed edge by edge into the real HArray/HList (4 adversarial key universes, every key probed "
         "through the lookup API after every edge) and random histories recorded from the real tables are validated line by line "
         "by the trace specification TraceQHash. Bounded (3 keys, <=4 slots exhaustive; 12 keys sampled), hence model checking.",
-   note="TLC 1.8 + the mapping of abstract keys to real strings (order preserving); out-of-bounds accesses are sensed by ASan/UBSan "
+   note="merging a table into itself (copy and move) is part of the histories as an operation that leaves the abstract map unchanged; TLC 1.8 + the mapping of abstract keys to real strings (order preserving); out-of-bounds accesses are sensed by ASan/UBSan "
         "in the same replays, not decided by TLC; capacity policy is deliberately nondeterministic in the specification (MaybeCompact).",
    technique="TLA+ spec QHash/QHashImpl checked by TLC; state-graph replay into the C++ tables; TLC trace validation of recorded histories",
    design="6 (C13), appendix E.1/F"),
@@ -58,7 +58,7 @@ CHECKS = {
         "loop + scalar tail of Memory::Copy/SetToZero is a TLA+ transcription (QCopyImpl: exact result, no stray write, reads in "
         "bounds, termination under fairness) and the real primitives are run for every length x misalignment in three SIMD builds "
         "with TLC judging every recorded event.",
-   note="bounded exhaustive + sampled histories; accesses beyond the logical size are sensed by ASan with exact-size blocks and hook H1; "
+   note="the histories append an array's own item, assign a string from its own storage and append a string to itself by move (same abstract operations: the model has no addresses); bounded exhaustive + sampled histories; accesses beyond the logical size are sensed by ASan with exact-size blocks and hook H1; "
         "thorough copy grid is 0..96 x 32x32 (the 0..4096 sweep of the statement is not done through TLC).",
    technique="TLA+ sequence specification checked by TLC; state-graph replay into the C++ containers; TLC trace validation; TLC batch oracle for Memory::Copy",
    design="6 (C14)"),
@@ -71,7 +71,7 @@ CHECKS = {
         "roots under ASan with the overloads rotated, and random histories (3-step paths, all literal kinds, typed getters) recorded "
         "from the real code are validated line by line by TraceQValue. A pointer-to-value must read as its target (document view, typed "
         "getters judged with the specification's coercion rules, size, ==): OraclePtr over generated targets.",
-   note="bounded exhaustive (weight <= 3 quick / 4 thorough, depth <= 2) + sampled histories; positional access into objects with "
+   note="stage 'alias' (OracleAlias): the source of an assignment / append / merge lives inside the target, values constructed over dirty memory, kind changes by tag, a null pointer-to-value; bounded exhaustive (weight <= 3 quick / 4 thorough, depth <= 2) + sampled histories; positional access into objects with "
         "removed entries and key lookups in arrays are not generated (outside the contract); Value<char> only.",
    technique="TLA+ document specification checked by TLC; state-graph replay into Value; TLC trace validation of recorded histories",
    design="6 (C12), appendix E.3"),
@@ -125,7 +125,7 @@ CHECKS = {
         "document; every text <= 6/7). AllOrNothing is checked on the parser transcription for the same texts. The real parser is then "
         "run on every enumerated text and, for random documents, on all |D| cuts, suffixes and bracket mutations; TLC judges that anything "
         "accepted is a document of the grammar and contains no Undefined.",
-   note="bounded enumeration + sampled documents; leniencies outside the listed families (raw control characters in strings, \\U, hex numerals) are not generated.",
+   note="three recorded findings, each with its own event family: hexadecimal numbers and capital \\U (pinned by the repository's tests), '+1' / '.5' / '5.' (number grammar not checked before Digit::StringToNumber); families nulit / ctrl / hisur / hexbad cover the repaired leniencies; bounded enumeration + sampled documents; leniencies outside the listed families (raw control characters in strings, \\U, hex numerals) are not generated.",
    technique="TLC-checked grammar facts + parser transcription (AllOrNothing); TLC batch oracle over cuts / suffixes / bracket mutations of generated documents",
    design="6 (C07)"),
  "C08": dict(
@@ -160,7 +160,7 @@ CHECKS = {
         "values and random patterns x (format, precision 0..20, 40), and for integers of all widths incl. minimum values; TLC judges "
         "every event and itself classifies mismatches into the three recorded root-cause classes (precision 0; cut rounded in the wrong "
         "direction; lost integer zeros) - anything else is a violation.",
-   note="all 2^32 floats / 2^64 doubles are out of reach of TLC (exhaustive only for the 16-bit instantiation); three known-finding "
+   note="every conversion is repeated into streams without slack at every fill level (the carry digit of a rounding is stored behind the digits); all 2^32 floats / 2^64 doubles are out of reach of TLC (exhaustive only for the 16-bit instantiation); three known-finding "
         "classes are recorded rather than repaired (approximate formatter, DigitTest pins its outputs).",
    technique="TLA+ exact-expansion formatting specification; TLC batch oracle with spec-side defect classification",
    design="6 (C10)"),
@@ -216,7 +216,7 @@ CHECKS = {
         "(token-class sequences in several spellings, cuts / deletions / duplications / delimiter swaps of well-formed templates, quotes "
         "and brackets in attributes, nests 300 and 600 deep) are rendered from exact-size unterminated buffers in 4 character widths, in "
         "SSE2 / scalar / AVX2 / auto-escape-off builds under ASan+UBSan with a per-case alarm; tag-free texts must render to themselves (TLC).",
-   note="the model is exhaustive only up to the token bound; out-of-bounds accesses, traps and hangs of the renderer are sensed "
+   note="families added after the hunting round: any unit as attribute quote x operator tails (optail), loops at nesting depth 254..512 under an outer loop (level256), reals whose rounding carries out of the top digit at every stream fill level (carry), entity look-alikes at the end of the buffer (echo); the model is exhaustive only up to the token bound; out-of-bounds accesses, traps and hangs of the renderer are sensed "
         "(sanitizers, alarm) on generated inputs, not proved; one recorded finding: recursion depth is proportional to nesting depth.",
    technique="TLA+ state machine of the tag scanner checked by TLC + trace validation of hook-recorded scanner states; sanitizer-sensed rendering of generated malformed texts",
    design="0.2 / 0.4 (as built), 6 (C01)"),
